@@ -94,7 +94,7 @@ class Driver:
 
         self.sf = factory(fun, x_init.copy(), jac if mode == "callable" else mode, (lb, ub), EPS_ABS, REL)
         self.scale = 1.0
-        self.nad_base = _AD_COUNT[0]
+        self.nad_own = 0  # differencing-routine invocations caused by this wrapper's own requests
         self.prev_point = None
         self.f_known = False
         self.g_known = False
@@ -140,8 +140,12 @@ class Driver:
             ans_f, ans_g = None, sf.grad(arg)
         else:
             ans_f, ans_g = sf.fun_and_grad(arg)
+        self.nad_own += _AD_COUNT[0] - nad0
         if ans_g is not None:
+            raw_g = ans_g
             ans_g = np.array(ans_g, copy=True)  # our private copy of the answer
+            if self.mutate is not False and isinstance(raw_g, np.ndarray) and raw_g.flags.writeable:
+                raw_g[...] = np.nan  # the caller recycles the array it was given: the memo must not live in it
         if self.mutate is True:
             arg += 17.25  # the caller reuses its buffer
         out.count("requests")
@@ -162,7 +166,7 @@ class Driver:
         if self.mode == "callable":
             exp_ng = self.ng_total
         else:
-            exp_ng = _AD_COUNT[0] - self.nad_base if _AD_COUNT[1] else None
+            exp_ng = self.nad_own if _AD_COUNT[1] else None
         if exp_ng is not None and sf.ngev != exp_ng:
             out.violate("ngev_drift", f"{label}: ngev={sf.ngev} but {exp_ng} gradient computations were performed", mode=str(self.mode))
         # 3. no re-evaluation at the point of the previous request when its value is known
@@ -190,7 +194,6 @@ class Driver:
             if self.mode != "callable":
                 self.f_known = True  # the differencing scheme needs f(x)
         self.prev_point = np.array(point, copy=True)
-        del nad0
 
 
 # count invocations of the differencing routine by rebinding the module-level name
@@ -250,6 +253,9 @@ def cases(tier, seed):
     nrand = 320 if tier == "quick" else 3200
     for i in range(nrand):
         yield {"kind": "random", "mode": MODES[i % 5], "seed": subseed("C15r", seed, i) % (2**31), "count": 16}
+    nint = 200 if tier == "quick" else 3000
+    for i in range(nint):
+        yield {"kind": "interleaved", "modes": [MODES[i % 5], MODES[(i // 5 + 1 + i) % 5]], "seed": subseed("C15i", seed, i) % (2**31), "count": 8}
 
 
 def has_revisit(hist):
@@ -266,7 +272,7 @@ def has_revisit(hist):
 def run(spec):
     _install_ad_counter()
     out = Outcome()
-    mode = spec["mode"]
+    mode = spec.get("mode")
     old = np.seterr(all="ignore")
     try:
         if spec["kind"] == "exhaustive":
@@ -293,6 +299,35 @@ def run(spec):
             out.nontrivial = nrev > 0
             out.key = f"{mode}/{spec['prefix']}/{spec['mutate']}/L{L}"
             out.sample = dict(spec=spec, last_history=[(OPS[s // 3], "abc"[s % 3]) for s in hist])
+        elif spec["kind"] == "interleaved":
+            # two wrappers alive at once (an outer and a nested optimisation, or two threads): each one's answers must
+            # not depend on the other's gradient mode, step settings or bounds
+            rng = np.random.default_rng(spec["seed"])
+            for j in range(spec["count"]):
+                n = int(rng.integers(2, 5))
+                lbA, ubA, ptsA = alphabet(n)
+                ptsB = [p * 0.5 + 0.05 for p in ptsA]
+                lbB, ubB = lbA * 0.5 - 0.2, np.where(np.isfinite(ubA), ubA * 0.5 + 0.3, np.inf)
+                dA = Driver(spec["modes"][0], n, lbA, ubA, ptsA[0], out, mutate=True)
+                dB = Driver(spec["modes"][1], n, lbB, ubB, ptsB[0], out, mutate="reuse")
+                # different absolute / relative steps for the second wrapper
+                Lr = int(rng.integers(6, 20))
+                for k in range(Lr):
+                    which = int(rng.integers(0, 2))
+                    sym = int(rng.integers(0, 9))
+                    if which == 0:
+                        dA.step(OPS[sym // 3], ptsA[sym % 3], f"interleaved A step{k} ")
+                    else:
+                        dB.step(OPS[sym // 3], ptsB[sym % 3], f"interleaved B step{k} ")
+                    if out.violations:
+                        break
+                out.count("histories")
+                out.count("interleaved_histories")
+                if out.violations:
+                    break
+            out.nontrivial = True
+            out.key = f"inter/{spec['modes']}/{spec['seed']}"
+            out.sample = dict(spec=spec)
         else:
             rng = np.random.default_rng(spec["seed"])
             for j in range(spec["count"]):
